@@ -60,7 +60,20 @@ pub fn run(args: &Args) -> i32 {
             0 | 1 => {
                 let m = crate::model::gen_movie(&mut rng, 3, if g % 7 == 0 { 30 } else { 8 }, 24);
                 let fl = crate::model::gen_file_layout(&mut rng, &m);
-                subjects.push(Subject { name: format!("generated movie {}", g), bytes: crate::model::build_plain(&m, &fl, &|_| {}).ser.bytes, init: None });
+                // half of them with the children of every stbl in a permuted order (the order
+                // carries no meaning): which table holds the last bytes of the file, and so which
+                // table a cut near the end falls into, must not be always the same one
+                let perm_seed = rng.next_u64();
+                let permute = g % 2 == 1;
+                let ntr = m.tracks.len();
+                let bytes = crate::model::build_plain(&m, &fl, &|top| {
+                    if permute {
+                        for k in 0..ntr {
+                            crate::layoutx::apply(top, &crate::layoutx::Xf::Permute { path: format!("moov#0/trak#{}/mdia#0/minf#0/stbl#0", k), seed: perm_seed ^ k as u64 });
+                        }
+                    }
+                }).ser.bytes;
+                subjects.push(Subject { name: format!("generated {}movie {}", if permute { "stbl-permuted " } else { "" }, g), bytes, init: None });
             }
             _ => {
                 let same_trex = rng.bool();
